@@ -105,7 +105,20 @@ func customName(t reflect.Type) (string, bool) {
 	v := reflect.New(t).Elem()
 	if v.CanInterface() {
 		if n, ok := v.Interface().(hessian.CodecNamable); ok {
-			return n.HessianCodecName(), true
+			name := n.HessianCodecName()
+			// a name promoted from an embedded struct is that struct's name, not the name of the type
+			// around it (two classes cannot share one wire name): the statement's "the custom name when
+			// the type declares one" is read as "declares itself"
+			if t.Kind() == reflect.Struct {
+				for i := 0; i < t.NumField(); i++ {
+					if f := t.Field(i); f.Anonymous && f.Type.Kind() == reflect.Struct {
+						if en, ok := reflect.New(f.Type).Elem().Interface().(hessian.CodecNamable); ok && en.HessianCodecName() == name {
+							return "", false
+						}
+					}
+				}
+			}
+			return name, true
 		}
 	}
 	return "", false
